@@ -23,6 +23,26 @@ ASSUMPTIONS = [
     "PARTIAL wrt floating point: theorems are over R; binary64 behaviour is sampled (tested)",
     "Reals axioms of the Coq standard library (ClassicalDedekindReals.sig_forall_dec, sig_not_dec, functional_extensionality_dep)",
 ]
+# what T1 does not translate: constructors, declared inverses, unit declarations and the wrap setting of the models
+PINS = ["gwcs/geometry.py::ToDirectionCosines.__init__",
+        "gwcs/geometry.py::ToDirectionCosines.inverse",
+        "gwcs/geometry.py::FromDirectionCosines.__init__",
+        "gwcs/geometry.py::FromDirectionCosines.inverse",
+        "gwcs/geometry.py::SphericalToCartesian.__init__",
+        "gwcs/geometry.py::SphericalToCartesian.wrap_lon_at",
+        "gwcs/geometry.py::SphericalToCartesian.inverse",
+        "gwcs/geometry.py::SphericalToCartesian.input_units",
+        "gwcs/geometry.py::CartesianToSpherical.__init__",
+        "gwcs/geometry.py::CartesianToSpherical.wrap_lon_at",
+        "gwcs/geometry.py::CartesianToSpherical.inverse",
+        "gwcs/spectroscopy.py::WavelengthFromGratingEquation.__init__",
+        "gwcs/spectroscopy.py::WavelengthFromGratingEquation.return_units",
+        "gwcs/spectroscopy.py::AnglesFromGratingEquation3D.__init__",
+        "gwcs/spectroscopy.py::AnglesFromGratingEquation3D.input_units",
+        "gwcs/spectroscopy.py::Snell3D.__init__",
+        "gwcs/spectroscopy.py::SellmeierGlass.__init__",
+        "gwcs/spectroscopy.py::SellmeierGlass.input_units",
+        "gwcs/spectroscopy.py::SellmeierZemax.__init__"]
 THEOREMS = ["C19_s2c_unit", "C19_dircos_unit", "C19_from_to_dircos", "C19_grating_wavelength", "C19_grating_angles",
             "C19_snell", "C19_sellmeier_glass", "C19_zemax_is_published_formula", "C19_c2s_lat_range",
             "C19_c2s_lon_range_360", "C19_c2s_lon_range_180", "C19_c2s_pole_lon0"]
@@ -83,6 +103,8 @@ def run(ctx):
     ctx.trusted += ["tools/py2coq/t1.py (fail-closed arithmetic translator) and coq/theories/C19/RMath.v",
                     "tools/checks/C19.py numeric oracle"]
     ctx.gate()
+    from lib import pins as _pins
+    _pins.check(ctx, PINS)
     ctx.coq_theorems("C19/RMath", ["fmod_range", "atan2_range", "atan2_nonneg_x"])
     try:
         src, closures, info = G.gen(REPO)
